@@ -27,12 +27,15 @@ Definition flags_eqb (s s' : lstate) : bool :=
                             && Nat.eqb (nerr s) (nerr s') && Nat.eqb (ncorr s) (ncorr s')
   | _, _, _, _ => false
   end.
-Definition b00 : bits := mkB [false] [false] [false; false].
+(* every value of the (at most) one record bit, one silent bit and four error bits a fragment can read *)
+Definition all_bits6 : list bits :=
+  flat_map (fun r => flat_map (fun s => map (fun e => mkB [r] [s] e) (bitvecs 4)) bools) bools.
+Definition b00 : bits := mkB [false] [false] [false; false; false; false].
 Definition flags_const (ex : bool) (col : colour) (ops : list (op nat)) : bool :=
   let ref := run 1 b00 ops (start_state ex col 0) in
-  forallb (fun b => forallb (fun j => flags_eqb (run 1 b ops (start_state ex col j)) ref) [0; 1]%nat) all_bits
+  forallb (fun b => forallb (fun j => flags_eqb (run 1 b ops (start_state ex col j)) ref) [0; 1]%nat) all_bits6
   && match exists_ ref with [true] => true | _ => false end
-  && Nat.leb (nrec ref) 1 && Nat.leb (nsil ref) 1 && Nat.eqb (nerr ref) 0 && Nat.eqb (ncorr ref) 0.
+  && Nat.leb (nrec ref) 1 && Nat.leb (nsil ref) 1 && Nat.leb (nerr ref) 2 && Nat.eqb (ncorr ref) 0.
 
 Definition spec_meas_m (basis : pauli) (is_reset : bool) (inv : bool) (b : bits) : m2 :=
   let o := xorb (bit (brec b) 0) inv in if is_reset then reset_m basis o else proj_m basis o.
@@ -41,11 +44,35 @@ Definition m2_cols (m : m2) : list vec := let '(m00, m01, m10, m11) := m in [[m0
 Definition check_meas_at (row : string * (pauli * bool * (nat -> Q -> bool -> list (op nat)))) : bool :=
   let '(_, (basis, is_reset, g)) := row in
   forallb (fun inv => forallb (fun k : bool * colour => let '(ex, col) := k in
-    agree_all (map (fun b => (mat_at ex col b (g 0%nat qz inv), m2_cols (spec_meas_m basis is_reset inv b))) all_bits)
+    agree_all (map (fun b => (mat_at ex col b (g 0%nat qz inv), m2_cols (spec_meas_m basis is_reset inv b))) all_bits6)
     && flags_const ex col (g 0%nat qz inv)) entry_kinds) bools.
+(* noisy measurement: the reported bit is the true outcome xor the noise bit; the post-measurement state follows the true outcome *)
+Definition spec_meas_noisy_m (basis : pauli) (is_reset : bool) (inv : bool) (b : bits) : m2 :=
+  let o := xorb (xorb (bit (brec b) 0) inv) (bit (berr b) 0) in if is_reset then reset_m basis o else proj_m basis o.
+Definition check_meas_noisy_at (row : string * (pauli * bool * (nat -> Q -> bool -> list (op nat)))) : bool :=
+  let '(_, (basis, is_reset, g)) := row in
+  forallb (fun inv => forallb (fun k : bool * colour => let '(ex, col) := k in
+    agree_all (map (fun b => (mat_at ex col b (g 0%nat qp inv), m2_cols (spec_meas_noisy_m basis is_reset inv b))) all_bits6)
+    && flags_const ex col (g 0%nat qp inv)) entry_kinds) bools.
 Definition spec_reset_m (basis : pauli) (ex : bool) (b : bits) : m2 := if ex then reset_m basis (bit (bsil b) 0) else prep_m basis.
 Definition check_reset_at (row : string * (pauli * (nat -> list (op nat)))) : bool :=
   let '(_, (basis, g)) := row in
   forallb (fun k : bool * colour => let '(ex, col) := k in
-    agree_all (map (fun b => (mat_at ex col b (g 0%nat), m2_cols (spec_reset_m basis ex b))) all_bits)
+    agree_all (map (fun b => (mat_at ex col b (g 0%nat), m2_cols (spec_reset_m basis ex b))) all_bits6)
+    && flags_const ex col (g 0%nat)) entry_kinds.
+
+(* single-qubit Pauli channels: error bits (e0, e1) of the channel select the documented Pauli *)
+Definition noise1_fns : list (string * (nat -> list (op nat))) :=
+  [("x_error", fun q => g_x_error q qp); ("y_error", fun q => g_y_error q qp); ("z_error", fun q => g_z_error q qp);
+   ("depolarize1", fun q => g_depolarize1 q qp); ("pauli_channel_1", fun q => g_pauli_channel_1 q qp qp qp)]%string.
+Definition spec_noise1_m (name : string) (b : bits) : m2 :=
+  let e0 := bit (berr b) 0 in let e1 := bit (berr b) 1 in
+  if String.eqb name "x_error" then (if e0 then mX else mI)
+  else if String.eqb name "y_error" then (if e0 then mY else mI)
+  else if String.eqb name "z_error" then (if e0 then mZ else mI)
+  else pauli_opt_m (pc1_pauli ((if e0 then 1 else 0) + (if e1 then 2 else 0))).     (* tsim draws Z^e0 then X^e1 *)
+Definition check_noise1_at (row : string * (nat -> list (op nat))) : bool :=
+  let '(name, g) := row in
+  forallb (fun k : bool * colour => let '(ex, col) := k in
+    agree_all (map (fun b => (mat_at ex col b (g 0%nat), m2_cols (spec_noise1_m name b))) all_bits6)
     && flags_const ex col (g 0%nat)) entry_kinds.
